@@ -127,6 +127,12 @@ class Uninit:
     def __init__(self):
         self.val = None
 
+    def __getitem__(self, k):
+        return self.val
+
+    def __setitem__(self, k, v):
+        self.val = v
+
 
 class Opaque:
     """value of a type the executor does not look into (statics, handlers, ...)."""
